@@ -75,13 +75,14 @@ def escB (normM : Bool) (rate md : α) (stars : List (StarBin α)) (rems : List 
   if normM then rate / (sumL (stars.map (StarBin.Js md)) + sumL (rems.map (remJ md)))
   else rate / (sumL (stars.map (StarBin.Is md)) + sumL (rems.map (remI md)))
 
-/-- after core collapse: Lamers+13 depletion (evolve_mf.py:638-693) -/
+/-- after core collapse: Lamers+13 depletion (evolve_mf.py:638-693). The updates are masked as in the source: star entries only on
+    `depl_mask`, remnant entries only where `Nr > 0` (this matters when the normalisation is zero and `B` is not finite) -/
 def escPost (normM : Bool) (rate md : α) (stars : List (StarBin α)) (rems : List (α × α)) :
     List α × List α × List (α × α) :=
   let B := escB normM rate md stars rems
-  (stars.map (fun b => B * b.Is md),
+  (stars.map (fun b => if b.depl md then B * b.Is md else 0),
    stars.map (fun b => if b.depl md then B * b.dalphaUnit md else 0),
-   rems.map (fun r => (B * remI md r, B * remJ md r)))
+   rems.map (fun r => if lt 0 r.1 then (B * remI md r, B * remJ md r) else (0, 0)))
 
 /-- `_derivs_esc` -/
 def derivsEsc (normM : Bool) (t tcc rate md : α) (stars : List (StarBin α)) (rems : List (α × α)) :
